@@ -69,6 +69,10 @@ func (z *Interpreter) SetExternalLibs(libs []*r.Library) *Interpreter {
 ///// load functions //////
 
 func (z *Interpreter) LoadScript(source []rune) *Interpreter {
+	// the loaded script belongs to the returned interpreter (a copy), so that one interpreter
+	// could be shared by concurrent requests
+	loaded := *z
+	z = &loaded
 	// set moduleCodeFinder
 	z.moduleCodeFinder = func(isMain bool, info r.LibNameInfo) ([]rune, error) {
 		// suppose the sourceCode is the mainModule ONLY
@@ -87,6 +91,10 @@ func (z *Interpreter) LoadScript(source []rune) *Interpreter {
 }
 
 func (z *Interpreter) LoadFile(file string) *Interpreter {
+	// the loaded file belongs to the returned interpreter (a copy), so that one interpreter
+	// could be shared by concurrent requests
+	loaded := *z
+	z = &loaded
 	// set moduleCodeFinder
 	z.moduleCodeFinder = func(isMain bool, info r.LibNameInfo) ([]rune, error) {
 		// get dir & fileName -
